@@ -45,7 +45,7 @@ def run(ids):
     if os.path.exists(lr):
         res = json.load(open(lr))
     # a scratch worktree of /repo's HEAD: /repo's own working tree is never touched
-    WT = "/tmp/bn-run"
+    WT = f"/tmp/bn-run-{os.getpid()}"
     sh(f"git -C /repo worktree remove --force {WT}")
     sh(f"git -C /repo worktree add -q --detach {WT} HEAD")
     for bid in ids or sorted(os.listdir(B)):
